@@ -223,6 +223,7 @@ func checkOperationTable(c *Ctx, r *Report) {
 
 	// bindings: every type implementing ipmi.Command — identified by the constant its Name() returns —
 	// returns a pointer to an operation with the specified (NetFn, command, body) and its own Req/Rsp layers
+	checkRequestPassedWhole(c, r)
 	r.Rule("command-bindings", "every Command's Operation() points at the operation the specification assigns to the command named by Name(); Request()/Response() return the command's own layers", 16)
 	byName := map[string]op{
 		"Get Device ID": {0x06, 0x01, 0}, "Get System GUID": {0x06, 0x37, 0}, "Get Channel Authentication Capabilities": {0x06, 0x38, 0},
@@ -480,4 +481,88 @@ func callConstArg(v ssa.Value, name string) int64 {
 		return -1
 	}
 	return k
+}
+
+// checkRequestPassedWhole: the exported helpers that take a request (`GetSessionInfo(ctx,
+// *ipmi.GetSessionInfoReq)`, …) and wrap it in a command send what the caller asked for: the
+// command's Req is the whole parameter (`Req: *r`), or every field of it copied from the same
+// field of the parameter. A helper that copies only some fields sends zero for the others.
+func checkRequestPassedWhole(c *Ctx, r *Report) {
+	r.Rule("request-passed-whole", "a helper that wraps its request parameter in a command copies the whole request (or every one of its fields)", 4)
+	for _, fn := range c.LibFuncs() {
+		if fn.Parent() != nil || !c.libFn(fn) {
+			continue
+		}
+		for _, prm := range fn.Params {
+			pt, ok := prm.Type().Underlying().(*types.Pointer)
+			if !ok {
+				continue
+			}
+			reqT, ok := pt.Elem().(*types.Named)
+			if !ok {
+				continue
+			}
+			reqS, ok := reqT.Underlying().(*types.Struct)
+			if !ok {
+				continue
+			}
+			rawInstrs(fn, false, func(in ssa.Instruction) {
+				al, ok := in.(*ssa.Alloc)
+				if !ok {
+					return
+				}
+				cmdS, ok := al.Type().(*types.Pointer).Elem().Underlying().(*types.Struct)
+				if !ok {
+					return
+				}
+				hasReq := false
+				for i := 0; i < cmdS.NumFields(); i++ {
+					if cmdS.Field(i).Name() == "Req" && types.Identical(cmdS.Field(i).Type(), reqT) {
+						hasReq = true
+					}
+				}
+				if !hasReq {
+					return
+				}
+				key := c.FnName(fn) + "|" + reqT.Obj().Name()
+				f, _, _ := complitFieldsAlloc(al)
+				loadOfParamField := func(v ssa.Value, field string) bool {
+					ld, ok := stripConv(v).(*ssa.UnOp)
+					if !ok || ld.Op != token.MUL {
+						return false
+					}
+					if field == "" {
+						return ld.X == ssa.Value(prm)
+					}
+					fa, ok := ld.X.(*ssa.FieldAddr)
+					if !ok || fa.X != ssa.Value(prm) {
+						return false
+					}
+					sf := structField(fa.X.Type(), fa.Field)
+					return sf != nil && sf.Name() == field
+				}
+				if v, whole := f["Req"]; whole {
+					r.Check(loadOfParamField(v, ""), key, al.Pos(), "Req is the whole request parameter", "the command's request is not the request the caller passed")
+					return
+				}
+				var missing []string
+				n := 0
+				for i := 0; i < reqS.NumFields(); i++ {
+					fld := reqS.Field(i)
+					if fld.Embedded() {
+						continue // the layer bookkeeping (BaseLayer) is not part of the request
+					}
+					n++
+					if v, has := f["Req."+fld.Name()]; !has || !loadOfParamField(v, fld.Name()) {
+						missing = append(missing, fld.Name())
+					}
+				}
+				if n == 0 {
+					return
+				}
+				sort.Strings(missing)
+				r.Check(len(missing) == 0, key, al.Pos(), "every field of the request parameter is copied", "the command's request does not carry the caller's "+strings.Join(missing, ", ")+": the helper sends zero there whatever was asked")
+			})
+		}
+	}
 }
